@@ -124,9 +124,9 @@ func PackString(buffer []byte, maxLen uint, input string) (uint, error) {
 		return 0, fmt.Errorf("unable to encode string: %s", err)
 	}
 
-	if len(encoded) >= int(maxLen) {
-		encoded = encoded[:maxLen]
-		encoded[maxLen] = 0x00
+	// Leave room for the terminating NUL: strings of maxLen or more characters are cut.
+	if maxLen > 0 && len(encoded) >= int(maxLen) {
+		encoded = encoded[:maxLen-1]
 	}
 
 	copy(buffer, encoded)
